@@ -18,9 +18,11 @@ LEVEL = "fault_enumeration"
 RPCS = (1, 2, 4, 5, 1024)
 
 
-def make_product(tc, P=3):
+def make_product(tc, P=3, same=False):
     level = "1.1" if tc == "C*8" else "1.5"
-    images = [synth.image_spec("HH", None, 4, P, tc), synth.image_spec("HV", None, 2, 2, tc)]
+    images = [synth.image_spec("HH", None, 4, P, tc), synth.image_spec("HV", None, 2, 2, tc) if not same else synth.image_spec("HV", None, 4, P, tc)]
+    if same:  # ... and the same file descriptor, field by field (what the polarisations of one scene have)
+        images[1]["twin_header"] = True
     spec = synth.product_spec(level, images=images)
     files, _ = synth.build(spec)
     return spec, files
@@ -71,9 +73,9 @@ def intact_event_count(prod, rpc):
 
 def execute(case):
     tc, rpc = case["type"], case["rpc"]
-    spec, files = make_product(tc)
+    spec, files = make_product(tc, same=case.get("same", False))
     names = synth.file_names(spec)
-    target = {"img": names["img"][0], "led": names["led"], "vol": names["vol"]}[case["file"]]
+    target = {"img": names["img"][0], "img1": names["img"][1], "led": names["led"], "vol": names["vol"]}[case["file"]]
     full = files[target]
     fails = []
     outcomes = {}
@@ -217,6 +219,18 @@ def execute_missing(case):
     names = synth.file_names(spec)
     victims = {"summary": "summary.txt", "vol": names["vol"], "led": names["led"], "img0": names["img"][0], "img1": names["img"][1], "trl": names["trl"]}
     victim = victims[case["missing"]]
+    import time
+
+    slept = []
+    real_sleep = time.sleep
+    time.sleep = lambda x=0: slept.append(float(x))  # waits are recorded, not served: "terminates promptly" without waiting it out
+    try:
+        return _missing(case, spec, files, victim, slept)
+    finally:
+        time.sleep = real_sleep
+
+
+def _missing(case, spec, files, victim, slept):
     with harness.Product(files, case["fs"]) as prod:
         prod.remove(victim)
         try:
@@ -234,6 +248,8 @@ def execute_missing(case):
     else:
         ok = out.startswith("raises-oserror")
         detail = f"{victim} missing on {case['fs']} use_cache={case['use_cache']}: {out}, expected an OSError/FileNotFoundError"
+    if ok and sum(slept) > 5:
+        return {"ok": False, "sig": {"kind": "not-prompt", "missing": case["missing"]}, "detail": f"{victim} missing on {case['fs']}: the open waits {sum(slept):.0f} s ({len(slept)} sleeps) before it reports the missing file", "outcome": "not-prompt", "nontrivial": True}
     return {"ok": ok, "sig": {"kind": "missing-file", "missing": case["missing"], "out": out.split(":")[0]}, "detail": detail, "outcome": out, "nontrivial": True}
 
 
@@ -303,6 +319,15 @@ def plan(tier):
             if rpc in (2, 1024):  # the same cuts on an async fsspec implementation (http / s3 / gcs are of that kind)
                 for c in chunks(cuts, 40):
                     cases.append({"fn": "execute", "type": tc, "rpc": rpc, "file": "img", "cuts": c, "fs": "amcfs"})
+        # the SECOND image cut (its geometry equal to / different from the first image's)
+        for same in (True, False):
+            sp2, f2 = make_product(tc, same=same)
+            n2 = len(f2[synth.file_names(sp2)["img"][1]])
+            rl2 = info["prefix"] + (3 if same else 2) * info["bps"]
+            cuts2 = sorted({c for k in range(5) for c in (720 + k * rl2 - 1, 720 + k * rl2, 720 + k * rl2 + 1, 720 + k * rl2 + info["prefix"]) if 0 <= c <= n2} | set(range(0, n2 + 1, 61)) | {n2 - 1, n2})
+            for rpc in (1, 2, 1024):
+                for c in chunks(cuts2, 40):
+                    cases.append({"fn": "execute", "type": tc, "rpc": rpc, "file": "img1", "cuts": c, "same": same})
         led_cuts = range(0, n_led + 1) if tier == "thorough" else boundaries(tc, "led", 256)
         for c in chunks(led_cuts, 40):
             cases.append({"fn": "execute", "type": tc, "rpc": 2, "file": "led", "cuts": c})
@@ -341,7 +366,7 @@ def run(res, tier, seed):
         "every truncation length 0..size of a 4x3 image x rpc{1,2,4,5,1024} x type through sar_image.open_image, and through"
         " open_alos2 at every length (thorough) or all record/field boundaries +-1 + every 16th byte (quick), also on an async fsspec filesystem; leader and"
         " volume directory cut at every length (thorough) / every layout field boundary +-1 + stride (quick); every single"
-        " missing file x use_cache x 3 filesystems; images whose record length is 720 / 360 / 240 bytes cut around every record boundary; every file cut in place after an intact open in the same process (modification time kept / new; local and mcfs); images of 19 / 19 / 72 MB cut at the boundaries +-1 of the first, middle and last records, inside their" " prefixes and pixel data and at every power of two 2^20..2^27 +-1, x rpc {default, 8, 64, 4096}. A case is a batch of cuts of one file; all are non-trivial (each cut is"
+        " missing file x use_cache x 3 filesystems (waits requested through time.sleep are recorded, more than 5 s before the error is not prompt); the second image cut (geometry equal to / different from the first image's); images whose record length is 720 / 360 / 240 bytes cut around every record boundary; every file cut in place after an intact open in the same process (modification time kept / new; local and mcfs); images of 19 / 19 / 72 MB cut at the boundaries +-1 of the first, middle and last records, inside their" " prefixes and pixel data and at every power of two 2^20..2^27 +-1, x rpc {default, 8, 64, 4096}. A case is a batch of cuts of one file; all are non-trivial (each cut is"
         " a distinct byte length and is executed on the real code)."
     )
     res.assumptions = ["a truncated file is modelled as a shorter file (reads return fewer bytes), as on local and object stores", "promptness = number of filesystem events <= intact open (deterministic); wall time is not an oracle"]
